@@ -62,6 +62,8 @@ def gen_case(rng, tier, wide=False):
         case["wrap"] = rng.choice(["series", "series", "list"])
     if rng.random() < 0.3:
         case["relay"] = rng.choice([1, 2, 3, 5])
+    if case["result"] and kind == "grid" and rng.random() < 0.4:      # (not the CMA-MAE kinds: their float32 thresholds differ from the float64 replay)
+        case["narrow_main"] = True
     nops = rng.randint(4, 14 if tier == "quick" else 30)
     ops, phase, next_id = [], None, 1
     p_illegal = rng.choice([0.0, 0.3, 0.3, 0.45])
@@ -115,7 +117,8 @@ GRID_ALL = U.GRID
 def build(case, mode=None):
     from ribs.schedulers import Scheduler
     Spy = U.make_spy_emitter_class()
-    arch = U.make_spy_archive(case["archive"], case["extra"])
+    # narrow_main: a float32 search archive next to a float64 result archive (the told float64 values must reach the result archive as they are)
+    arch = U.make_spy_archive(case["archive"], case["extra"], dtype=np.float32 if (case.get("narrow_main") and case["result"]) else None)
     res = U.make_spy_archive("grid" if case["archive"].startswith("grid") else case["archive"], case["extra"]) if case["result"] else None
     ems = [Spy(arch, kind=k) for k in case["emitters"]]
     for o in ems + [arch] + ([res] if res is not None else []):
@@ -158,10 +161,13 @@ def tell_payload(case, op, cur_ids):
             return U.enc_measures(ids, [e[0] for e in evs])
         return U.enc_tag(ids) if f == "tag" else U.enc_vec(ids)
     arrays = {f: arr(f) for f in order}
+    if case.get("narrow_main") and case["result"] and arrays.get("objective") is not None:
+        arrays["objective"] = arrays["objective"] + 2.0 ** -30      # not a float32 value (the id is still the integer part modulo QSCALE)
     lens_fine = all(c is None or len(c) == n for c in cols.values()) and len(jac_ids) == n
     if mal and mal[0] == "nan" and n > 0 and lens_fine:
         k = mal[1] % n
-        arrays["measures"][k, 1] = np.nan
+        # non-finite, or (float32 search archive) finite but beyond float32: the search archive rejects the row either way
+        arrays["measures"][k, 1] = 1e39 if (case.get("narrow_main") and case["result"] and salt % 2 == 1) else np.nan
         fail = k
     return arrays, U.enc_jacobian(jac_ids), [U.col(cols[f]) for f in order], jac_ids, fail, meta
 
@@ -228,6 +234,12 @@ def run_impl(case, mode=None):
                     r = [U.err_code(e)]
                 if r != [3]:
                     meta.update(m)
+                if r == [0] and res is not None and case.get("narrow_main") and arrays.get("objective") is not None:
+                    nres = snap[2]      # result-archive calls before this tell
+                    got = [v for call in res.raw_objectives[nres:] if call is not None for v in call]
+                    want = [float(x) for x in np.asarray(arrays["objective"], dtype=np.float64)]
+                    if got != want and "values_changed" not in meta:
+                        meta["values_changed"] = {"op": k, "told": want[:6], "result_archive_received": got[:6]}
                 fbs = [row for call in arch.feedback[nfb:] for row in call]
                 fl = [] if fail is None else [fail]
                 mops.append([2, cols, fbs, fl] if name == "tell" else [3, cols, jac_ids, fbs, fl])
@@ -253,7 +265,7 @@ def canon_model(mout):
     return outs, [fin[0], fin[1], fin[2]]
 
 
-def replay_events(case, events, meta, kind):
+def replay_events(case, events, meta, kind, frac=0.0):
     """interprets the model's list of insertion calls on a fresh real archive of the same configuration"""
     a = U.make_spy_archive(kind, case["extra"])
     order = ["objective", "measures"] + list(case["extra"]) + ["solution"]
@@ -265,7 +277,7 @@ def replay_events(case, events, meta, kind):
                 out[f] = None
                 continue
             evs = [meta.get(i, ((0, 0), 0)) for i in ids]
-            out[f] = {"objective": lambda: U.enc_objective(ids, [e[1] for e in evs]),
+            out[f] = {"objective": lambda: U.enc_objective(ids, [e[1] for e in evs]) + frac,
                       "measures": lambda: U.enc_measures(ids, [e[0] for e in evs]),
                       "tag": lambda: U.enc_tag(ids), "vec": lambda: U.enc_vec(ids),
                       "solution": lambda: U.enc_solution(ids)}[f]()
@@ -294,6 +306,10 @@ def compare(case, driver):
             return {"step": k, "op": case["ops"][k], "model": m, "impl": i}
     if im["disturbed"] is not None:
         return {"step": im["disturbed"], "op": case["ops"][im["disturbed"]], "what": "a rejected call changed an archive or an emitter"}
+    if "values_changed" in im["meta"]:
+        vc = im["meta"]["values_changed"]
+        return {"step": vc["op"], "op": case["ops"][vc["op"]], "what": "the result archive did not receive the objective values that were told (float64 values, "
+                "float32 search archive): told %s, received %s" % (vc["told"], vc["result_archive_received"])}
     names = ["emitter logs", "archive insertion calls", "result archive insertion calls"]
     for nm, m, i in zip(names, mo_fin, im["final"]):
         if m != i:
@@ -311,7 +327,8 @@ def compare(case, driver):
         return {"what": "archive contents differ from the model's insertion calls replayed on a fresh archive",
                 "model": ref, "impl": im["contents"][0]}
     if case["result"]:
-        ref = replay_events(case, mo_fin[2][0], im["meta"], "grid" if kind.startswith("grid") else kind)
+        ref = replay_events(case, mo_fin[2][0], im["meta"], "grid" if kind.startswith("grid") else kind,
+                            frac=2.0 ** -30 if (case.get("narrow_main") and case["result"]) else 0.0)
         if ref != im["contents"][1]:
             return {"what": "result archive contents differ from the model's insertion calls replayed on a fresh archive",
                     "model": ref, "impl": im["contents"][1]}
